@@ -605,7 +605,7 @@ func decodeMixed(c *Ctx, prop string, class int) {
 				n = (3 << 20) / junk
 			}
 			if w := c.L("gen:w"); w.Chance(1, 3) {
-				kind, sub, junk = 9+w.Intn(3), w.Intn(8), w.Intn(4)
+				kind, sub, junk = 9+w.Intn(4), w.Intn(8), w.Intn(4)
 				n = []int{4000, 25000, 60000, 150000}[w.Intn(4)]
 			}
 			data = gengen.ManyTiny(kind, sub, n, junk)
@@ -614,7 +614,7 @@ func decodeMixed(c *Ctx, prop string, class int) {
 				kind = 7 // (the date packets are ManyTiny's default branch)
 			}
 			ents := map[int][]string{0: {"Decode", "DecodeHeif", "isobmff.Reader"}, 1: {"PreviewCR3", "DecodeCR3", "isobmff.Reader"}, 2: {"jpeg.ScanJPEG", "DecodeJPEG", "Decode"}, 7: {"xmp.ParseXmp"},
-				4: {"Decode", "DecodeCR3", "isobmff.Reader"}, 5: {"DecodeJPEG", "Decode", "jpeg.ScanJPEG"}, 6: {"xmp.ParseXmp"}, 8: {"Decode", "isobmff.Reader"}, 9: {"Decode", "isobmff.Reader", "DecodeHeif"}, 10: {"xmp.ParseXmp"}, 11: {"Decode", "isobmff.Reader", "DecodeHeif"}}[kind]
+				4: {"Decode", "DecodeCR3", "isobmff.Reader"}, 5: {"DecodeJPEG", "Decode", "jpeg.ScanJPEG"}, 6: {"xmp.ParseXmp"}, 8: {"Decode", "isobmff.Reader"}, 9: {"Decode", "isobmff.Reader", "DecodeHeif"}, 10: {"xmp.ParseXmp"}, 11: {"Decode", "isobmff.Reader", "DecodeHeif"}, 12: {"PreviewCR3", "isobmff.Reader", "DecodeCR3"}}[kind]
 			e = harness.EntryByName(ents[y.Intn(3)%len(ents)])
 		}
 		hi = len(data)
@@ -731,9 +731,14 @@ func decodeMixed(c *Ctx, prop string, class int) {
 		if c.L("dev:0").Chance(1, 3) {
 			flt = Fault{Kind: 1, K: biasedK(c.L("dev:0"), hi)}
 		}
+		// C14: what a decode allocates must not depend on how the same bytes arrive either (a
+		// buffer that grows per Read call rather than per byte received)
+		if x := c.L("dev:0:x"); prop == "C14" && x.Chance(1, 4) {
+			dl = drawDelivery(x)
+		}
 	}
 	c.Dev.Budget = tickBudget(len(data))
-	if prop == "C01" {
+	if prop == "C01" || dl.Piece != 0 {
 		c.Dev.Budget *= 8 // short-read deliveries multiply device events; C01 does not judge ticks
 	}
 	r := newReader(c.Dev, data, flt, dl)
